@@ -39,6 +39,11 @@ type frame struct {
 	pos    token.Pos
 }
 
+type sortedRec struct {
+	s    Slice
+	vals []Value
+}
+
 type trailEntry struct {
 	cond  *sym.Term
 	taken bool
@@ -120,6 +125,9 @@ type Interp struct {
 	recordExtern bool
 	summarizing  bool
 	sumTrail     []trailEntry
+	lastSorted   *sortedRec
+	bufTags      map[*Cell]Value
+	lenSeq       int
 	externCalls  []string
 	obs          []Obs
 	onceDone     map[*Cell]bool
@@ -437,6 +445,9 @@ func (in *Interp) runPath(fn *ssa.Function, prefix []int) {
 	in.lastPanic = ""
 	in.recordExtern = false
 	in.summarizing = false
+	in.lastSorted = nil
+	in.bufTags = nil
+	in.lenSeq = 0
 	in.externCalls = nil
 	kind := "done"
 	func() {
@@ -667,7 +678,7 @@ func (in *Interp) callFunction(fn *ssa.Function, args []Value, env []Value, site
 	if h, ok := in.Intrinsics[fn.Name()]; ok && in.isRT(fn) {
 		return h(in, args, site)
 	}
-	if target, ok := in.Redirect[name]; ok && !in.calledFrom(target) {
+	if target, ok := in.Redirect[name]; ok && !in.callerIsHarness() {
 		f := in.findHarnessFunc(fn, target)
 		if f == nil {
 			in.unmodelled("redirect target " + target + " not found")
@@ -732,6 +743,21 @@ func (in *Interp) callFunction(fn *ssa.Function, args []Value, env []Value, site
 		}
 	}
 	return res
+}
+
+// callerIsHarness: redirects stand in for the environment of the code under
+// test; a call made by harness code itself always reaches the real function.
+func (in *Interp) callerIsHarness() bool {
+	if n := len(in.stack); n > 0 {
+		fn := in.stack[n-1].fn
+		for fn.Parent() != nil {
+			fn = fn.Parent()
+		}
+		if fn.Pos().IsValid() {
+			return strings.Contains(in.Prog.Fset.Position(fn.Pos()).Filename, "zz_verif_")
+		}
+	}
+	return false
 }
 
 // calledFrom reports whether the innermost frame runs the named function (a
@@ -1756,7 +1782,7 @@ func (in *Interp) lookup(fr *frame, x *ssa.Lookup) Value {
 		mt := under(x.X.Type()).(*types.Map)
 		key := in.get(fr, x.Index)
 		if x.CommaOk && !valueUsed(x) {
-			if _, conc := in.canonKey(key); !conc && b.M != nil {
+			if _, conc := in.canonKey(key); (!conc || (b.M != nil && b.M.SymKeys)) && b.M != nil {
 				var eqs []*sym.Term
 				for _, k := range b.M.sortedKeys(false) {
 					eqs = append(eqs, in.eqValues(key, b.M.Ent[k].K))
@@ -1781,7 +1807,7 @@ func (in *Interp) mapLookup(m Map, key Value, mt *types.Map) (Value, *sym.Term) 
 	if m.M == nil {
 		return zero, in.B.False()
 	}
-	if ck, ok := in.canonKey(key); ok {
+	if ck, ok := in.canonKey(key); ok && !m.M.SymKeys {
 		if e, ok := m.M.Ent[ck]; ok {
 			return e.V, in.B.True()
 		}
@@ -1800,6 +1826,9 @@ func (in *Interp) mapLookup(m Map, key Value, mt *types.Map) (Value, *sym.Term) 
 			acc = in.B.Ite(eqs[i], m.M.Ent[keys[i]].V.(*sym.Term), acc)
 		}
 		return acc, found
+	}
+	if zs, isStruct := zero.(*Struct); isStruct && len(zs.F) == 0 {
+		return zero, found
 	}
 	if _, isStr := zero.(string); isStr {
 		// string elements: an ite chain over equality atoms
